@@ -4,7 +4,7 @@
    contain no "::", so the join is injective).  Entries are made in the order the parser moves elements into the AST:
    per definition the members of its members (parameters, then return members; the fields of enumerators), then its
    members, then the definition; the file's module after all its definitions.  A later entry replaces an earlier one with
-   the same skey (HashMap::insert).  Outside the model: the sixteen primitive types, entered first under their keywords; a top-level
+   the same skey (HashMap::insert).  The sixteen primitive types are entered first under their keywords (sc_table_with); a top-level
    module named like one (`module \int32`) replaces that entry whatever the order of the files (the parser no longer reads it: fix 21e7062).
    Model only. *)
 From Coq Require Import List Bool Arith.
@@ -32,7 +32,7 @@ Definition members (d : scdef) : list (sname * list sname) :=
 
 (* what a skey leads to: a module of that sname, or the entity of a file at a path: [definition], [definition; member] or
    [definition; member; k] (k counts parameters, then return members; or an enumerator's fields) *)
-Inductive scent := ScModule (k : skey) | ScEntity (file : nat) (path : list nat).
+Inductive scent := ScModule (k : skey) | ScEntity (file : nat) (path : list nat) | ScPrimitive (p : sname).
 
 Definition def_key (mp : skey) (d : scdef) : skey := mp ++ [scdef_name d].
 Definition member_keys (mp : skey) (d : scdef) : list skey := map (fun ms => mp ++ [scdef_name d; fst ms]) (members d).
@@ -59,6 +59,8 @@ Definition file_entries (f : sfile) : list (skey * scent) :=
   end.
 Definition sc_table (fs : list sfile) : list (skey * scent) := flat_map file_entries fs.
 
+(* Ast::create enters the primitive types first, each under its keyword; everything the files declare comes after them *)
+Definition sc_table_with (prims : list sname) (fs : list sfile) : list (skey * scent) := map (fun p => ([p], ScPrimitive p)) prims ++ sc_table fs.
 Definition skey_eq_dec : forall a b : skey, {a = b} + {a <> b} := list_eq_dec Nat.eq_dec.
 (* HashMap::get after the inserts in order: the last entry with the skey *)
 Fixpoint sc_lookup (k : skey) (t : list (skey * scent)) : option scent :=
